@@ -12,6 +12,14 @@ class Injected(Exception):
         self.tag = tag
 
 
+class Fatal(BaseException):
+    """An injected failure that is no `Exception` (user code can die of anything)."""
+
+    def __init__(self, tag: str) -> None:
+        super().__init__(tag)
+        self.tag = tag
+
+
 class CallRec:
     """One synchronous call of a worker function (the point where an element becomes a coroutine)."""
 
